@@ -19,7 +19,6 @@ Section AnyBracket.
     match l with AOne g => any_br g | ACons g r => any_br g || any_br_alts r end.
 End AnyBracket.
 
-Definition is_alnum (c : char) : bool := in_rng 48 57 c || in_rng 65 90 c || in_rng 97 122 c.
 
 Definition mem_esc_alnum (m : bmem) : bool := match m with MEsc c => is_alnum c | _ => false end.
 Definition item_esc_alnum (i : bitem) : bool :=
